@@ -564,8 +564,15 @@ def op_cli(ctx, op):
                           'tdda %s wrote no %s' % (' '.join(argv),
                                                    op['out']))
                 return
-            with io.open(outp, encoding='utf-8') as f:
-                text = f.read()
+            with io.open(outp, 'rb') as f:
+                raw = f.read()
+            try:
+                text = raw.decode('utf-8')
+            except UnicodeDecodeError as e:
+                # (.tdda files are UTF-8: that is how load() reads them)
+                violation(ctx, op, 'discover-output-is-json', 'file-not-utf8',
+                          'the .tdda file written is not UTF-8: %r' % (e,))
+                return
         try:
             got = json.loads(text)['fields'] if text.strip() else None
         except Exception as e:
